@@ -28,7 +28,7 @@ from .tlc import MachineryError
 
 ROOT = os.path.dirname(os.path.dirname(os.path.abspath(__file__)))
 PY = "/venv/bin/python"
-ALL_FIXES = ["F1", "F2", "F3", "F4", "F7", "F9", "F10", "F22", "F24"]
+ALL_FIXES = ["F1", "F2", "F3", "F4", "F7", "F9", "F10", "F22", "F24", "F25"]
 NCPU = os.cpu_count() or 4
 
 # ---------------------------------------------------------------------------------------
